@@ -322,6 +322,7 @@ Record mrow := MkRow {
   bvia : via;
   scale : mexpr;      (* multiplier of the mask variable inside the opened expression *)
   secret : mexpr;     (* width of the range of the masked value (annotation) *)
+  cap : mexpr;        (* 0, or the range the opened value must stay below (no wrap-around in the field) *)
   pre : list (mexpr * mexpr)   (* preconditions  a <= b  under which the site is reached *)
 }.
 
@@ -346,6 +347,14 @@ Definition mask_range (r : mrow) (prss : bool) (e : env) : Z :=
     end
   end.
 
+(** largest possible value of the whole mask: all d summands at their maximum *)
+Definition mask_total (r : mrow) (prss : bool) (e : env) : Z :=
+  mask_range r prss e * row_dealers r prss e.
+
+(** the opened value stays inside the intended range (only checked when the row states one) *)
+Definition cap_ok (r : mrow) (prss : bool) (e : env) : bool :=
+  (meval (cap r) e =? 0) || (meval (secret r) e + mask_total r prss e <=? meval (cap r) e).
+
 (** the obligation of one row at one parameter point *)
 Definition row_ok_at (r : mrow) (prss : bool) (e : env) : bool :=
   match kind r with
@@ -354,7 +363,8 @@ Definition row_ok_at (r : mrow) (prss : bool) (e : env) : bool :=
     | BNone => false
     | BExpr _ =>
       (0 <? mask_range r prss e) &&
-      (meval (secret r) e * pow2 (e Vk) <=? mask_range r prss e * pow2 (slack (row_dealers r prss e)))
+      (meval (secret r) e * pow2 (e Vk) <=? mask_range r prss e * pow2 (slack (row_dealers r prss e))) &&
+      cap_ok r prss e
     end
   | KXorLow => meval (secret r) e <=? meval (scale r) e
   | KMultBlind | KFieldUniform => match bound r with BNone => true | BExpr _ => false end
@@ -371,6 +381,7 @@ Theorem row_ok_additive_sound r prss e :
 Proof.
   intros Hk Hk0 Hok a a' Hd R. unfold row_ok_at in Hok. rewrite Hk in Hok.
   destruct (bound r) eqn:Eb; [discriminate|].
+  apply andb_true_iff in Hok. destruct Hok as [Hok _].
   apply andb_true_iff in Hok. destruct Hok as [H1 H2].
   apply Z.ltb_lt in H1. apply Z.leb_le in H2. rewrite !pow2_spec in H2.
   apply mask_range_suffices with (S := meval (secret r) e); subst R; try lia.
@@ -430,12 +441,18 @@ Qed.
 (** first failing grid point (L, l, k, f, t, m, b, n, prss) of a row, for reporting *)
 Definition env_tuple (e : env) := [e VL; e Vl; e Vk; e Vf; e Vt; e Vm; e Vb; e Vn].
 
-Definition first_fail (r : mrow) : option (list Z * bool) :=
+Definition fail_reason (r : mrow) (prss : bool) (e : env) : Z :=
+  match kind r with
+  | KAdditive => if cap_ok r prss e then 1 (* mask too small *) else 2 (* mask overflows the intended range *)
+  | _ => 1
+  end.
+
+Definition first_fail (r : mrow) : option (list Z * bool * Z) :=
   let bad prss := find (fun e => pre_holds r e && negb (row_ok_at r prss e)) (grid_envs r) in
   let try prss := if existsb (Bool.eqb prss) (row_modes r) then bad prss else None in
   match try false with
-  | Some e => Some (env_tuple e, false)
-  | None => match try true with Some e => Some (env_tuple e, true) | None => None end
+  | Some e => Some (env_tuple e, false, fail_reason r false e)
+  | None => match try true with Some e => Some (env_tuple e, true, fail_reason r true e) | None => None end
   end.
 
 (** values the correspondence check compares with the implementation's logged bounds:
@@ -486,14 +503,15 @@ Qed.
     l, k, f, t, m and both randomness modes (this is the for-all version of the grid obligations for the
     rows of shape  1 << e). *)
 Theorem pow2_row_ok r prss e eb es esec b :
-  kind r = KAdditive -> bound r = BExpr b -> bvia r = ViaRandoms ->
+  kind r = KAdditive -> bound r = BExpr b -> bvia r = ViaRandoms -> meval (cap r) e = 0 ->
   meval b e = 2 ^ eb -> meval (scale r) e = 2 ^ es -> meval (secret r) e = 2 ^ esec ->
   0 <= eb -> 0 <= es -> 0 <= esec -> 0 <= e Vk -> 1 <= row_dealers r prss e ->
   esec + e Vk <= eb + es ->
   row_ok_at r prss e = true.
 Proof.
-  intros Hk Hb Hv Eb Es Esec Heb Hes Hesec Hkk Hd Hle.
-  unfold row_ok_at, mask_range. rewrite Hk, Hb, Hv, Eb, Es, Esec. rewrite !pow2_spec.
+  intros Hk Hb Hv Hcap Eb Es Esec Heb Hes Hesec Hkk Hd Hle.
+  unfold row_ok_at, cap_ok. rewrite Hcap. simpl. rewrite andb_true_r.
+  unfold mask_range. rewrite Hk, Hb, Hv, Eb, Es, Esec. rewrite !pow2_spec.
   pose proof (eff_bound_pow2 eb (row_dealers r prss e) Heb Hd) as H.
   set (E := eff_bound (2 ^ eb) (row_dealers r prss e)) in *.
   set (S := 2 ^ slack (row_dealers r prss e)) in *.
